@@ -11,12 +11,12 @@ fn nt_c05(m: &Model, classes: &std::collections::HashSet<&'static str>) -> bool 
 }
 
 fn case_small(t: &mut Tape, st: &mut Stats) -> Verdict {
-    let p = gen_program(t, GenCfg { functions: true, failures: false, max_depth: 4, max_stmts: 40, long_loops: false, probe_conditions: true, lib_calls: false });
+    let p = gen_program(t, GenCfg { breaks: true, functions: true, failures: false, max_depth: 4, max_stmts: 40, long_loops: false, probe_conditions: true, lib_calls: false });
     run_program(&p, t, st, "C05", nt_c05)
 }
 
 fn case_large(t: &mut Tape, st: &mut Stats) -> Verdict {
-    let p = gen_program(t, GenCfg { functions: true, failures: false, max_depth: 6, max_stmts: 120, long_loops: false, probe_conditions: false, lib_calls: false });
+    let p = gen_program(t, GenCfg { breaks: false, functions: true, failures: false, max_depth: 6, max_stmts: 120, long_loops: false, probe_conditions: false, lib_calls: false });
     run_program(&p, t, st, "C05", nt_c05)
 }
 
@@ -54,7 +54,7 @@ fn case_deep(t: &mut Tape, st: &mut Stats) -> Verdict {
 pub fn property() -> Property {
     Property {
         id: "C05",
-        rule: "C04's programs plus 1..4 function definitions (scoped or not, fixed arity, any keyword spelling) and calls as statements, output-assigning statements and in condition position (if f a / while p), returns at any depth inside loops and branches, nested and self-recursive calls, repeated calls after early returns; (deep-recursion) a function calling itself from inside its own for-in loop 257..400 levels deep, in a few hand-built shapes (one or two loop levels, with or without a returned value, called once or from a loop); emit trace and final variables compared with the tree-walking interpreter extended with call frames (arguments bound to 1..n, return unwinds, no loop state outside the frame, scoped isolation). Non-trivial: a function called >= 2 times with an early return from inside a loop or branch, or call depth >= 2; distinct by script text",
+        rule: "C04's programs plus 1..4 function definitions (scoped or not, fixed arity, any keyword spelling) and calls as statements, output-assigning statements and in condition position (if f a / while p), returns at any depth inside loops and branches, function bodies that start with a for-in loop left by goto from inside a branch (the language's 'break') and then end normally or by a return, nested and self-recursive calls, repeated calls after early returns; (deep-recursion) a function calling itself from inside its own for-in loop 257..400 levels deep, in a few hand-built shapes (one or two loop levels, with or without a returned value, called once or from a loop); emit trace and final variables compared with the tree-walking interpreter extended with call frames (arguments bound to 1..n, return unwinds, no loop state outside the frame, scoped isolation). Non-trivial: a function called >= 2 times with an early return from inside a loop or branch, or call depth >= 2; distinct by script text",
         assumptions: &[
             "programs reaching a corner the property leaves open are discarded and counted: reading an output variable of a <scope> call that ended without a value while it held a value before; output variables of value-less calls made inside a function invoked in condition position; numeric argument variables after an intervening call; a body assigning its caller's pending output variable",
             "condition-position call arguments are plain words (the wrappers' re-serialisation is C09's subject)",
@@ -67,7 +67,7 @@ pub fn property() -> Property {
                     Tier::Thorough => Plan::Random { cases: 3_000_000, max_len: 900 },
                 },
                 case: case_small,
-                min_classes: &[("return-from-inside-for", 300), ("return-from-inside-while", 300), ("return-from-inside-branch", 1000), ("scoped-call-with-value", 1000), ("scoped-call-without-value", 1000), ("call-in-condition-position", 1000), ("direct-recursion", 300), ("condition-call-with-the-same-words-cut-differently", 15)],
+                min_classes: &[("return-from-inside-for", 300), ("return-from-inside-while", 300), ("return-from-inside-branch", 1000), ("scoped-call-with-value", 1000), ("scoped-call-without-value", 1000), ("call-in-condition-position", 1000), ("direct-recursion", 300), ("condition-call-with-the-same-words-cut-differently", 15), ("for-in-left-by-goto-inside-a-function", 2000)],
             },
             Section {
                 name: "large-programs",
